@@ -9,7 +9,12 @@
         request alphabet TLC generated; ImplLifecycle.tla compares every edge with Lifecycle!Step (conformance,
         with D = 100, S = 106, W = 100) and explores graph x ghost monitor checking C15a / C15b.
  leg C  TLC-simulated longer behaviours (two channels with on-chain activity, several bury / unbury steps) are
-        replayed through the implementation and validated by TraceLifecycle.tla."""
+        replayed through the implementation and validated by TraceLifecycle.tla.
+ very deep burial (plans "deep*", model run "deep"): the alphabet TLC generates also holds Bury sizes around every
+        depth constant the monitor knows (MIN_DEPTH = 100 and MAX_CLOSING_DEPTH = 2016: Bury(2015) mines 2015 real
+        blocks, ~0.3 ms each): every event that does not suffice for discarding a channel - funding confirmed only,
+        unilateral close only, close with only the main output / only the HTLC output swept, asked to forget or
+        not - must keep the channel alive at those depths too (Lifecycle!RefDone knows MIN_DEPTH only)."""
 import json
 import os
 import time
@@ -31,6 +36,7 @@ def _private():
 FUK = ["F", "X", "M"]
 UNI = ["F", "U", "S", "H", "L"]
 ALL = ["F", "X", "M", "U", "V", "S", "H", "L"]
+DEEP = ["F", "U", "S", "H"]
 
 
 def _plans(tier):
@@ -40,6 +46,9 @@ def _plans(tier):
                 ("ids", lc.plan(2, [1], ["F", "M"], "dep", [98]), 2, 1),
                 ("uni", lc.plan(1, [1], UNI, "dep", [98, 99], empty=False), 4, 1),
                 ("stub", lc.plan(1, [], [], "none", [105]), 2, 1),
+                # very deep burial: one channel, single blocks F / U / S / H (never fully swept), one Bury per
+                # path with 99 / 100 / 2015 / 2016 blocks (the top event gets D, D + 1, DX, DX + 1 confirmations)
+                ("deep", lc.plan(1, [1], DEEP, "none", [], empty=False, around=[0, 1]), 4, 1),
                 # one heartbeat prunes a buried channel and a stale stub together, in both id orders
                 ("mixed", lc.plan(2, [1, 2], ["X"], "none", [106], empty=False), 2, 1),
                 # crash points inside new / setup / forget requests (plain store)
@@ -51,6 +60,12 @@ def _plans(tier):
             ("two", lc.plan(2, [1, 2], ["F", "M"], "none", [98, 99], empty=False), 4, 1),
             ("stub", lc.plan(2, [], [], "none", [105]), 2, 1),
             ("stub-deep", lc.plan(1, [], [], "none", [105]), 3, 2),
+            # very deep burial: partly and fully swept closes (with the second level), 98..101 / 2014..2017 and
+            # MAX_CLOSING_DEPTH + MIN_DEPTH blocks; closes with two-transaction blocks and without holder outputs;
+            # double-spend / mutual close / funding only
+            ("deep", lc.plan(1, [1], UNI, "none", [], empty=False, around=[-1, 0, 1, 2, 100]), 5, 1),
+            ("deep-pairs", lc.plan(1, [1], ["F", "U", "V", "S", "H", "L"], "dep", [], empty=False, around=[1]), 4, 1),
+            ("deep-close", lc.plan(1, [1], FUK, "none", [], empty=False, around=[0, 1]), 3, 1),
             ("mixed", lc.plan(2, [1, 2], ["F", "M"], "dep", [106], empty=False), 2, 1),
             ("crash", lc.plan(1, [1], ["F", "M"], "dep", [98, 106], empty=False, crash=True), 2, 1),
             ("crash-two", lc.plan(2, [1], ["X"], "none", [106], empty=False, crash=True), 1, 1)]
@@ -61,7 +76,16 @@ def _model_consts(tier):
     return {"D": 3, "S": 3, "W": 4, "MaxD": 2, "Cd": [1],
             "Kinds": ["F", "X", "M", "U", "S", "H", "L"] if quick else ALL,
             "Pairs": "dep", "BurySizes": [2], "Rev": bool(lc.MON_SWITCHES["backwardInReverse"]), "Crash": False,
-            "MaxH": 6 if quick else 9}
+            "MaxH": 6 if quick else 9, "DX": 5, "Around": []}
+
+
+def _model_consts_deep(tier):
+    """Very deep burial in the model: one channel, single blocks, Bury sizes around D = 2 and DX = 4 (5 with the
+    extra offset of the thorough tier) on top of chains of up to 5 blocks."""
+    quick = tier == "quick"
+    return {"D": 2, "S": 3, "W": 3, "MaxD": 1, "Cd": [1], "Kinds": ["F", "U", "S", "H", "L"], "Pairs": "none",
+            "BurySizes": [], "Rev": bool(lc.MON_SWITCHES["backwardInReverse"]), "Crash": False,
+            "MaxH": 10 if quick else 12, "DX": 4, "Around": [0, 1] if quick else [-1, 0, 1, 2]}
 
 
 TEXT = {"C15c": "a channel appeared with the id (or a lower id) of a channel the signer had forgotten after an "
@@ -94,7 +118,7 @@ def run(pid, tier):
 
     # ---- leg A: the model itself
     consts = _model_consts(tier)
-    a = lc.leg_a("main", consts, ["C15a", "C15b", "TypeOK", "ModelAgrees"], ["Frame"], workers=8)
+    a = lc.leg_a("main", consts, ["C15a", "C15b", "TypeOK", "ModelAgrees", "BuryLemma"], ["Frame"], workers=8)
     cov["legs"]["A_model"] = {"constants": consts, "states": a["distinct"], "transitions": a["states"],
                               "depth": a["depth"], "violated": a["violated"], "wall_s": round(a["wall_s"], 1)}
     model_cex = None
@@ -104,6 +128,16 @@ def run(pid, tier):
     elif a["distinct"] < 1000 or a["depth"] < 8:
         raise vlib.ToolError("leg A is vacuous: %d states, depth %d" % (a["distinct"], a["depth"]))
     a_states, a_trans = a["distinct"], a["states"]
+    # very deep burial: every partly swept close buried by DX and more
+    cd_ = _model_consts_deep(tier)
+    ad = lc.leg_a("deep", cd_, ["C15a", "C15b", "TypeOK", "ModelAgrees", "BuryLemma"], ["Frame"], workers=4)
+    cov["legs"]["A_model_deep"] = {"constants": cd_, "states": ad["distinct"], "transitions": ad["states"],
+                                   "depth": ad["depth"], "violated": ad["violated"], "wall_s": round(ad["wall_s"], 1)}
+    if ad["violated"] and not model_cex:
+        model_cex = {"violated": ad["violated"], "requests": [lc.req_str(r) for r in lc.cex_requests(ad["trace"])]}
+        log("[%s] leg A (deep): the MODEL violates %s: %s" % (pid, ad["violated"], model_cex))
+    a_states += ad["distinct"]
+    a_trans += ad["states"]
     if not quick:
         # two channels with on-chain activity
         c2 = dict(consts, Cd=[1, 2], Kinds=["F", "X", "M", "U", "S"], MaxH=7)
@@ -125,6 +159,10 @@ def run(pid, tier):
         wit[gname] = [lc.req_str(r) for r in lc.cex_requests(w["trace"])] if w["violated"] else None
         if not w["violated"]:
             raise vlib.ToolError("leg A vacuity guard: %s is never falsified by the model" % gname)
+    w = lc.leg_a("wit-NeverKeptBeyondDX", cd_, [], ["NeverKeptBeyondDX"], workers=4, timeout=600)
+    if not w["violated"]:
+        raise vlib.ToolError("leg A vacuity guard: NeverKeptBeyondDX is never falsified by the deep model")
+    wit["NeverKeptBeyondDX"] = [lc.req_str(r) for r in lc.cex_requests(w["trace"])]
     cov["legs"]["A_model"]["witnesses"] = wit
 
     # ---- leg B: implementation state graphs
@@ -132,7 +170,9 @@ def run(pid, tier):
     truncated = []
     exercised = {"pruned_ready_edges": 0, "pruned_stub_edges": 0, "kept_forgotten_edges": 0, "kept_at_depth_Dm1": 0,
                  "refused_new": 0, "aborts": 0, "restart_unequal_states": 0, "restart_bad_states": 0,
-                 "restore_fails_states": 0, "mixed_prune_edges": 0, "mixed_prune_stub_above_edges": 0}
+                 "restore_fails_states": 0, "mixed_prune_edges": 0, "mixed_prune_stub_above_edges": 0,
+                 "kept_beyond_DX_funding_only": 0, "kept_beyond_DX_close_unswept": 0,
+                 "kept_beyond_DX_main_output_swept": 0, "kept_beyond_DX_not_asked": 0}
     for name, pl, maxshort, maxbury in _plans(tier):
         ex = lc.explore(binpath, name, pl, maxshort, maxbury, threads=8 if quick else 12,
                         max_states=25000 if quick else 120000)
@@ -148,9 +188,12 @@ def run(pid, tier):
             raise vlib.ToolError("lifecycle harness: initial state is not the specification's initial state")
         leg = "B_impl_" + name
         cov["legs"][leg] = {
-            "plan": {k: pl[k] for k in ("maxd", "cd", "kinds", "pairs", "bury", "mode", "empty", "crash")},
+            "plan": {k: pl[k] for k in ("maxd", "cd", "kinds", "pairs", "bury", "around", "mode", "empty", "crash")},
+            "bury_sizes": sorted({r["k"] for r in ex["cases"]["requests"] if r["op"] == "Bury"}),
             "maxshort": maxshort, "maxbury": maxbury, "requests_in_alphabet": len(ex["cases"]["requests"]),
             "impl_states": rep["nodes"], "impl_edges": rep["edges"], "refused_edges": ex["stats"]["refused"],
+            # removals the harness could not perform (compact-filter false positive): edges left unexplored
+            "skipped_filter_fp": ex["stats"].get("skipped_filter_fp", 0),
             "aborts": rep["aborts"], "spec_divergences": rep["n_divergences"],
             "pruned_ready_edges": rep["pruned_ready_edges"], "pruned_stub_edges": rep["pruned_stub_edges"],
             "kept_forgotten_edges": rep["kept_forgotten_edges"], "kept_at_depth_D_minus_1": rep["kept_at_depth_Dm1"],
@@ -158,6 +201,8 @@ def run(pid, tier):
             "restart_judged_states": rep["nodes"], "restart_bad_states": rep["restart_bad_states"],
             "restore_fails_states": rep["restore_fails_states"], "mixed_prune_edges": rep["mixed_prune_edges"],
             "mixed_prune_stub_above_edges": rep["mixed_prune_stub_above_edges"],
+            "kept_beyond_MAX_CLOSING_DEPTH": {k[len("kept_beyond_DX_"):]: rep[k] for k in exercised
+                                              if k.startswith("kept_beyond_DX_")},
             "product_states": r["distinct"], "product_transitions": r["states"], "violated": all_violated,
             "wall_s": round(r["wall_s"] + ex["wall_s"], 1)}
         tot_nodes += rep["nodes"]
@@ -196,7 +241,8 @@ def run(pid, tier):
                              "the result is incomplete" % truncated)
     # vacuity of leg B: the situations the property talks about must have been exercised on the real code
     for k in ("pruned_ready_edges", "pruned_stub_edges", "kept_at_depth_Dm1", "refused_new", "mixed_prune_edges",
-              "mixed_prune_stub_above_edges"):
+              "mixed_prune_stub_above_edges", "kept_beyond_DX_funding_only", "kept_beyond_DX_close_unswept",
+              "kept_beyond_DX_main_output_swept", "kept_beyond_DX_not_asked"):
         if exercised[k] == 0 and not violations:
             raise vlib.ToolError("leg B never exercised %s" % k)
 
@@ -256,7 +302,9 @@ def run(pid, tier):
                        "environment can issue, applied to every reachable concrete state; burying mines the real "
                        "number of blocks) in product with the ghost monitor - a ready channel may only disappear "
                        "when forget_channel was answered for it and a double-spend / mutual close / fully swept "
-                       "unilateral close has >= 100 confirmations on the chain the harness itself built; no "
+                       "unilateral close has >= 100 confirmations on the chain the harness itself built (no other "
+                       "event suffices at any depth: the 'deep' plans bury funding-only / close-only / partly swept "
+                       "closes by MAX_CLOSING_DEPTH = 2016 real blocks and more); no "
                        "channel may appear with an id <= a forgotten one - and compares each edge with "
                        "Lifecycle!Step, (c) validates replayed simulated behaviours the same way",
     })
@@ -269,7 +317,9 @@ def run(pid, tier):
                          "channels are set up without a separate permanent id",
                          "small scope: <= 2 node-assigned ids, one unilateral-close shape (holder output + one HTLC "
                          "+ second level) and one without holder outputs, chains of <= 4 single blocks plus <= 2 "
-                         "runs of 98 / 99 / 105 empty blocks exhaustively; longer in simulation",
+                         "runs of 98 / 99 / 105 empty blocks exhaustively; longer in simulation; very deep burial: one "
+                         "channel, one run of empty blocks per history with sizes around MIN_DEPTH and "
+                         "MAX_CLOSING_DEPTH = 2016 (up to 2116 in the thorough tier)",
                          "'buried by the required number of blocks' = MIN_DEPTH = 100 confirmations counting the "
                          "block of the event (depth_of in monitor.rs)",
                          "while the monitor's backward pass has the C14 defects (monitor_switches.json) the "
